@@ -65,6 +65,18 @@ class _Canon(ast.NodeTransformer):
                     return ast.copy_location(c, node)
         return node
 
+    def visit_Assign(self, node: ast.Assign):
+        self.generic_visit(node)
+        # a, b = x, y  with plain names/attributes on the right and no name written that is read later on the right:  a = x; b = y
+        if len(node.targets) == 1 and isinstance(node.targets[0], ast.Tuple) and isinstance(node.value, ast.Tuple) \
+                and len(node.targets[0].elts) == len(node.value.elts) and not any(isinstance(e, ast.Starred) for e in node.targets[0].elts + node.value.elts) \
+                and not any(isinstance(x, (ast.Call, ast.Yield, ast.Await, ast.NamedExpr)) for v in node.value.elts[1:] for x in ast.walk(v)):
+            written = [ast.unparse(t) for t in node.targets[0].elts]
+            reads = [ast.unparse(x) for v in node.value.elts for x in ast.walk(v) if isinstance(x, (ast.Name, ast.Attribute))]
+            if not set(written) & set(reads):
+                return [ast.copy_location(ast.Assign(targets=[t], value=v, lineno=node.lineno), node) for t, v in zip(node.targets[0].elts, node.value.elts)]
+        return node
+
     def visit_AugAssign(self, node: ast.AugAssign):
         self.generic_visit(node)
         if isinstance(node.op, ast.Add) and isinstance(node.value, ast.List) and len(node.value.elts) == 1 \
@@ -78,14 +90,88 @@ class _Canon(ast.NodeTransformer):
         return node
 
 
+class _SetDefault(ast.NodeTransformer):
+    """``row = T.setdefault(k, D)`` / ``T.setdefault(k, D)[i] = v`` / ``T.setdefault(k, D).append(v)`` are the check-then-create idiom
+    ``if k not in T: T[k] = D`` followed by the same statement over ``T[k]`` (key and default are written twice: view only, the key
+    must be a plain name/attribute/constant)."""
+
+    def _lift(self, stmt: ast.stmt) -> List[ast.stmt]:
+        pre: List[ast.stmt] = []
+
+        def is_sd(e):
+            return isinstance(e, ast.Call) and isinstance(e.func, ast.Attribute) and e.func.attr == "setdefault" and len(e.args) == 2 and not e.keywords \
+                and _simple(e.args[0]) and isinstance(e.args[1], (ast.Dict, ast.List, ast.Constant, ast.Call, ast.Name, ast.Attribute))
+
+        class R(ast.NodeTransformer):
+            def visit_Lambda(self, node):
+                return node
+            visit_FunctionDef = visit_Lambda
+            visit_ListComp = visit_Lambda
+            visit_DictComp = visit_Lambda
+            visit_SetComp = visit_Lambda
+            visit_GeneratorExp = visit_Lambda
+            visit_IfExp = visit_Lambda
+            visit_BoolOp = visit_Lambda
+
+            def visit_Call(self, node):
+                self.generic_visit(node)
+                if is_sd(node):
+                    table, key, default = node.func.value, node.args[0], node.args[1]
+                    tgt = ast.Subscript(value=copy.deepcopy(table), slice=copy.deepcopy(key), ctx=ast.Store())
+                    test = ast.Compare(left=copy.deepcopy(key), ops=[ast.NotIn()], comparators=[copy.deepcopy(table)])
+                    pre.append(ast.copy_location(ast.If(test=test, body=[ast.Assign(targets=[tgt], value=default, lineno=node.lineno)], orelse=[]), node))
+                    return ast.copy_location(ast.Subscript(value=table, slice=key, ctx=ast.Load()), node)
+                return node
+        if isinstance(stmt, (ast.Assign, ast.AugAssign, ast.Expr, ast.Return, ast.AnnAssign)):
+            new = R().visit(stmt)
+            if pre:
+                if isinstance(new, ast.Expr) and isinstance(new.value, ast.Subscript):
+                    return pre           # a bare `T.setdefault(k, D)` statement
+                return pre + [new]
+        return [stmt]
+
+    def _block(self, stmts):
+        out = []
+        for st in stmts:
+            self.generic_visit(st) if not isinstance(st, (ast.FunctionDef, ast.ClassDef)) else self.visit(st)
+            out += self._lift(st)
+        return out
+
+    def generic_visit(self, node):
+        for fld in ("body", "orelse", "finalbody"):
+            v = getattr(node, fld, None)
+            if isinstance(v, list) and v and isinstance(v[0], ast.stmt):
+                setattr(node, fld, self._block(v))
+        for h in getattr(node, "handlers", []) or []:
+            h.body = self._block(h.body)
+        return node
+
+    def visit(self, node):
+        return self.generic_visit(node)
+
+
 def canonicalise(tree: ast.AST, eq_none: bool = True) -> None:
     """*eq_none* = False where ``==`` may be overloaded to build an object (the SD DSL): there ``x == None`` is not ``x is None``."""
     _Canon(eq_none).visit(tree)
+    _drop_identity_assignments(tree)
+    _SetDefault().visit(tree)
     propagate_constants(tree)
     _Unroll().visit(tree)
     for fn in [n for n in ast.walk(tree) if isinstance(n, (ast.FunctionDef, ast.AsyncFunctionDef))]:
         propagate_attribute_aliases(fn)
     ast.fix_missing_locations(tree)
+
+
+def _drop_identity_assignments(tree: ast.AST) -> None:
+    """``x = x`` (what binding a helper's parameter to an equally named local leaves behind) says nothing."""
+    for n in ast.walk(tree):
+        for field in ("body", "orelse", "finalbody"):
+            blk = getattr(n, field, None)
+            if isinstance(blk, list) and blk and isinstance(blk[0], ast.stmt):
+                kept = [st for st in blk if not (isinstance(st, ast.Assign) and len(st.targets) == 1 and isinstance(st.targets[0], ast.Name)
+                                                and isinstance(st.value, ast.Name) and st.value.id == st.targets[0].id)]
+                if len(kept) != len(blk):
+                    blk[:] = kept or [ast.copy_location(ast.Pass(), blk[0])]
 
 
 def _attr_chain(e: ast.AST) -> Optional[str]:
@@ -265,8 +351,13 @@ class _Unroll(ast.NodeTransformer):
         return node
 
 
+_FUNC_NAMES: Set[str] = set()       # module-level function names of the module being canonicalised (immutable objects too)
+
+
 def _immutable_literal(e: ast.AST) -> bool:
     if isinstance(e, ast.Constant):
+        return True
+    if isinstance(e, ast.Name) and e.id in _FUNC_NAMES:
         return True
     if isinstance(e, ast.Tuple):
         return all(_immutable_literal(x) for x in e.elts)
@@ -286,6 +377,8 @@ def propagate_constants(tree: ast.Module) -> int:
     these, timedelta(...), re.compile(...)) stands for that literal wherever it is read (``NAME``, ``self.NAME``, ``Cls.NAME``).
     Mutable literals (dict, list, set) are *not* propagated - sharing one of those is behaviour."""
     n_done = 0
+    _FUNC_NAMES.clear()
+    _FUNC_NAMES.update(n.name for n in tree.body if isinstance(n, ast.FunctionDef))
     mod_consts: Dict[str, ast.AST] = {}
     counts: Dict[str, int] = {}
     for st in tree.body:
@@ -321,7 +414,21 @@ def propagate_constants(tree: ast.Module) -> int:
                     if isinstance(n, ast.Attribute) and isinstance(n.ctx, (ast.Store, ast.Del)) and n.attr in cc:
                         cc.pop(n.attr)
             cls_consts[c.name] = cc
-    if not mod_consts and not any(cls_consts.values()):
+    # constant tables: a module-level dict literal of constants that is only ever read with a constant key
+    tables: Dict[str, Dict[object, ast.AST]] = {}
+    for st in tree.body:
+        if isinstance(st, ast.Assign) and len(st.targets) == 1 and isinstance(st.targets[0], ast.Name) and counts.get(st.targets[0].id) == 1 \
+                and isinstance(st.value, ast.Dict) and st.value.keys and all(isinstance(k, ast.Constant) for k in st.value.keys) \
+                and all(_immutable_literal(v) for v in st.value.values):
+            tables[st.targets[0].id] = {k.value: v for k, v in zip(st.value.keys, st.value.values)}
+    if tables:
+        for n in ast.walk(tree):
+            for c in ast.iter_child_nodes(n):
+                if isinstance(c, ast.Name) and c.id in tables and isinstance(c.ctx, ast.Load):
+                    ok_use = isinstance(n, ast.Subscript) and n.value is c and isinstance(n.ctx, ast.Load)
+                    if not ok_use:
+                        tables.pop(c.id, None)
+    if not mod_consts and not any(cls_consts.values()) and not tables:
         return 0
 
     class P(ast.NodeTransformer):
@@ -346,6 +453,22 @@ def propagate_constants(tree: ast.Module) -> int:
             if isinstance(node.ctx, ast.Load) and node.id in mod_consts and self.shadow and not any(node.id in sh for sh in self.shadow):
                 n_done += 1
                 return ast.copy_location(copy.deepcopy(mod_consts[node.id]), node)
+            return node
+
+        def visit_Subscript(self, node):
+            nonlocal n_done
+            if isinstance(node.ctx, ast.Load) and isinstance(node.value, ast.Name) and node.value.id in tables and self.shadow \
+                    and not any(node.value.id in sh for sh in self.shadow):
+                key = node.slice
+                if isinstance(key, ast.Name) and False:
+                    pass
+                self.generic_visit(node)
+                key = node.slice
+                if isinstance(key, ast.Constant) and key.value in tables[node.value.id]:
+                    n_done += 1
+                    return ast.copy_location(copy.deepcopy(tables[node.value.id][key.value]), node)
+                return node
+            self.generic_visit(node)
             return node
 
         def visit_Attribute(self, node):
@@ -388,6 +511,8 @@ def _has_yield(fn: ast.AST) -> bool:
 
 
 def _contains_return(n: ast.AST) -> bool:
+    if isinstance(n, (ast.FunctionDef, ast.AsyncFunctionDef, ast.Lambda, ast.ClassDef)):
+        return False          # a nested definition: its returns are its own
     stack = [n]
     first = True
     while stack:
@@ -462,11 +587,29 @@ class _Subst(ast.NodeTransformer):
             return ast.copy_location(ast.Name(id=self.rename[node.id], ctx=node.ctx), node)
         return node
 
-    def visit_FunctionDef(self, node):      # do not descend into nested scopes that rebind the names
+    def _nested_scope(self, node):
+        """a nested def/lambda sees the enclosing names unless its own parameters shadow them"""
+        a = node.args
+        own = {x.arg for x in a.posonlyargs + a.args + a.kwonlyargs}
+        if a.vararg:
+            own.add(a.vararg.arg)
+        if a.kwarg:
+            own.add(a.kwarg.arg)
+        inner = _Subst({k: v for k, v in self.mapping.items() if k not in own}, {k: v for k, v in self.rename.items() if k not in own})
+        if isinstance(node, ast.Lambda):
+            node.body = inner.visit(node.body)
+        else:
+            node.body = [inner.visit(st) for st in node.body]
         return node
 
-    visit_Lambda = visit_FunctionDef
-    visit_ClassDef = visit_FunctionDef
+    def visit_FunctionDef(self, node):
+        return self._nested_scope(node)
+
+    def visit_Lambda(self, node):
+        return self._nested_scope(node)
+
+    def visit_ClassDef(self, node):
+        return node
 
 
 def _simple(e: ast.AST) -> bool:
@@ -506,9 +649,10 @@ def _docless(body: List[ast.stmt]) -> List[ast.stmt]:
 
 
 class Inliner:
-    def __init__(self, module_tree: ast.Module, vocab: Set[str]):
+    def __init__(self, module_tree: ast.Module, vocab: Set[str], global_classes: Optional[Dict[str, ast.ClassDef]] = None):
         self.tree = module_tree
         self.vocab = vocab
+        self.global_classes = global_classes or {}
         self.module_funcs: Dict[str, ast.FunctionDef] = {n.name: n for n in module_tree.body if isinstance(n, ast.FunctionDef)}
         self.class_methods: Dict[str, Dict[str, ast.FunctionDef]] = {}
         for c in module_tree.body:
@@ -577,19 +721,25 @@ class Inliner:
     def _methods_mro(self, cls: str, seen=None) -> Dict[str, ast.FunctionDef]:
         """Methods visible on *cls*: its own, then those of base classes defined in the same module."""
         seen = seen or set()
-        if cls in seen or cls not in self.class_methods:
+        if cls in seen:
             return {}
         seen.add(cls)
-        out: Dict[str, ast.FunctionDef] = {}
-        for c in self.tree.body:
-            if isinstance(c, ast.ClassDef) and c.name == cls:
-                for b in c.bases:
-                    bn = b.id if isinstance(b, ast.Name) else (b.attr if isinstance(b, ast.Attribute) else None)
-                    if bn:
-                        for k, v in self._methods_mro(bn, seen).items():
-                            out.setdefault(k, v)
-        mine = dict(self.class_methods.get(cls, {}))
-        mine.update({k: v for k, v in out.items() if k not in mine})
+        local = next((c for c in self.tree.body if isinstance(c, ast.ClassDef) and c.name == cls), None)
+        cdef = local if local is not None else self.global_classes.get(cls)       # a base class defined in another module of the package
+        if cdef is None:
+            return {}
+        if local is not None:
+            mine = dict(self.class_methods.get(cls, {}))
+        else:
+            mine = {}
+            for n in cdef.body:
+                if isinstance(n, ast.FunctionDef) and not any(isinstance(d, ast.Attribute) and d.attr in ("setter", "deleter") for d in n.decorator_list):
+                    mine.setdefault(n.name, n)
+        for b in cdef.bases:
+            bn = b.id if isinstance(b, ast.Name) else (b.attr if isinstance(b, ast.Attribute) else None)
+            if bn:
+                for k, v in self._methods_mro(bn, seen).items():
+                    mine.setdefault(k, v)
         return mine
 
     @staticmethod
@@ -688,6 +838,8 @@ class Inliner:
                 rep = self._try_stmt(s, cls, scopes + [fn], caller_locals, stack_guard)
                 if rep is None and isinstance(s, ast.For):
                     rep = self._try_genloop(s, cls, scopes + [fn], caller_locals, stack_guard)
+                if rep is None:
+                    rep = self._try_generator_argument(s, cls, scopes + [fn], caller_locals, stack_guard)
                 if rep is not None:
                     n_done += 1
                     out += rewrite_block(rep) if n_done < 40 else rep
@@ -765,13 +917,63 @@ class Inliner:
                 ast.If(test=ast.Constant(value=False), body=[ast.Pass()], orelse=[]), s))) if False else None
         return body
 
+    def _try_generator_argument(self, s: ast.stmt, cls, scopes, caller_locals, guard) -> Optional[List[ast.stmt]]:
+        """``Response(self._stream(args))`` with a generator helper that is used nowhere else: the helper becomes a nested generator
+        function of the caller (the reverse of extracting a closure into a method), its parameters bound to the arguments."""
+        if not isinstance(s, (ast.Assign, ast.Expr, ast.Return, ast.AnnAssign)):
+            return None
+        for call in [c for c in ast.walk(s) if isinstance(c, ast.Call)]:
+            r = self._resolve(call, cls, scopes)
+            if r is None:
+                continue
+            h, kind = r
+            if h.name in guard or h.name in self.vocab or not _has_yield(h) or h.args.vararg or h.args.kwarg or any(h is sc for sc in scopes):
+                continue
+            if any(not (isinstance(d, ast.Name) and d.id in ("staticmethod", "classmethod")) for d in h.decorator_list):
+                continue
+            uses = sum(1 for x in ast.walk(self.tree) if isinstance(x, ast.Call) and (
+                (isinstance(x.func, ast.Attribute) and x.func.attr == h.name) or (isinstance(x.func, ast.Name) and x.func.id == h.name)))
+            if uses != 1 or getattr(h, "_nested_copy", False):
+                continue
+            try:
+                mapping, rename, pre = self._bind(h, call, kind, caller_locals)
+            except _Cannot:
+                continue
+            body = copy.deepcopy(list(h.body))
+            sub = _Subst(mapping, {})
+            body = [sub.visit(x) for x in body]
+            nested = ast.FunctionDef(name=h.name, args=ast.arguments(posonlyargs=[], args=[], kwonlyargs=[], kw_defaults=[], defaults=[]),
+                                     body=pre + body, decorator_list=[], returns=None, type_comment=None)
+            try:
+                nested.type_params = []
+            except Exception:
+                pass
+            ast.copy_location(nested, h)
+            nested._nested_copy = True
+            new_call = ast.copy_location(ast.Call(func=ast.Name(id=h.name, ctx=ast.Load()), args=[], keywords=[]), call)
+
+            class R(ast.NodeTransformer):
+                def visit_Call(self, node):
+                    if node is call:
+                        return new_call
+                    self.generic_visit(node)
+                    return node
+            new_stmt = R().visit(s)
+            ast.fix_missing_locations(nested)
+            ast.fix_missing_locations(new_stmt)
+            self.inlined_into[id(h)] = self.inlined_into.get(id(h), 0) + 1
+            h._absorbed = True                      # its only call site now runs the nested copy
+            self._nested.clear()
+            return [nested, new_stmt]
+        return None
+
     def _hoist(self, s: ast.stmt, cls, scopes, caller_locals, guard) -> Optional[List[ast.stmt]]:
         """A multi-statement helper called inside a larger expression of a simple statement: its body is placed before the statement,
         assigning a temporary that replaces the call (view only: evaluation order of the surrounding operands is not preserved)."""
-        if not isinstance(s, (ast.Assign, ast.AugAssign, ast.AnnAssign, ast.Return, ast.Expr)):
+        if not isinstance(s, (ast.Assign, ast.AugAssign, ast.AnnAssign, ast.Return, ast.Expr, ast.If)):
             return None
         found = []
-        stack = [s]
+        stack = [s.test if isinstance(s, ast.If) else s]          # the test of an if is evaluated once, before either branch
         while stack:
             n = stack.pop()
             if isinstance(n, (ast.Lambda, ast.FunctionDef, ast.ListComp, ast.DictComp, ast.SetComp, ast.GeneratorExp, ast.IfExp, ast.BoolOp)):
@@ -779,7 +981,7 @@ class Inliner:
             if isinstance(n, ast.Call):
                 r = self._resolve(n, cls, scopes)
                 if r is not None and r[0].name not in guard and self._eligible(r[0]) and not any(r[0] is sc for sc in scopes) \
-                        and self._single_expr(r[0]) is None and _contains_return(r[0]):
+                        and self._single_expr(r[0]) is None and _contains_return(ast.Module(body=list(r[0].body), type_ignores=[])):
                     found.append((n, r))
             stack.extend(ast.iter_child_nodes(n))
         if not found:
@@ -809,7 +1011,11 @@ class Inliner:
                     return ast.copy_location(repl[id(node)], node)
                 self.generic_visit(node)
                 return node
-        new = R().visit(s)
+        if isinstance(s, ast.If):
+            s.test = R().visit(s.test)
+            new = s
+        else:
+            new = R().visit(s)
         ast.fix_missing_locations(new)
         return pre + [new]
 
@@ -936,14 +1142,15 @@ class Inliner:
         return done
 
 
-def inline_module(tree: ast.Module, vocab: Set[str]) -> int:
+def inline_module(tree: ast.Module, vocab: Set[str], global_classes: Optional[Dict[str, ast.ClassDef]] = None, any_helpers: bool = True) -> int:
     """Rewrite every function of the module in place; innermost functions first, two passes."""
-    if all(n.name in vocab for n in ast.walk(tree) if isinstance(n, (ast.FunctionDef, ast.AsyncFunctionDef))):
-        return 0                    # every function is an anchor the rules know by name: nothing to look through
-    inl = Inliner(tree, vocab)
+    if not any_helpers and all(n.name in vocab for n in ast.walk(tree) if isinstance(n, (ast.FunctionDef, ast.AsyncFunctionDef))):
+        return 0                    # every function of the package is an anchor the rules know by name: nothing to look through
+    inl = Inliner(tree, vocab, global_classes)
     total = 0
-    for _pass in range(3):
+    for _pass in range(4):
         done = 0
+        inl._nested.clear()
 
         def visit(fn: ast.FunctionDef, cls: Optional[str], scopes: List[ast.FunctionDef]):
             nonlocal done
@@ -978,8 +1185,12 @@ def inline_module(tree: ast.Module, vocab: Set[str]) -> int:
                 # calls to the name that remain anywhere (outside the helper itself) mean some site was not inlined
                 own = sum(1 for c in ast.walk(n) if isinstance(c, ast.Call) and (
                     (isinstance(c.func, ast.Attribute) and c.func.attr == n.name) or (isinstance(c.func, ast.Name) and c.func.id == n.name)))
-                refs = sum(1 for x in ast.walk(tree) if (isinstance(x, ast.Name) and x.id == n.name and isinstance(x.ctx, ast.Load)) or
-                           (isinstance(x, ast.Attribute) and x.attr == n.name and isinstance(x.ctx, ast.Load)))
+                shadowed = set()
+                for lam in ast.walk(tree):
+                    if isinstance(lam, ast.Lambda) and any(a.arg == n.name for a in lam.args.args + lam.args.kwonlyargs):
+                        shadowed |= {id(x) for x in ast.walk(lam.body)}
+                refs = sum(1 for x in ast.walk(tree) if id(x) not in shadowed and ((isinstance(x, ast.Name) and x.id == n.name and isinstance(x.ctx, ast.Load)) or
+                           (isinstance(x, ast.Attribute) and x.attr == n.name and isinstance(x.ctx, ast.Load))))
                 own_refs = sum(1 for x in ast.walk(n) if (isinstance(x, ast.Name) and x.id == n.name and isinstance(x.ctx, ast.Load)) or
                                (isinstance(x, ast.Attribute) and x.attr == n.name and isinstance(x.ctx, ast.Load)))
                 if refs - own_refs == 0:
